@@ -27,10 +27,14 @@ class EchoServer:
         if self.n <= self.fail_first:
             if self.fail_kind == "reset":
                 sc.reset()
+            elif self.fail_kind == "503-empty":
+                sc.write(wire.build_response(503, body=b""))
+            elif self.fail_kind == "302-empty":
+                sc.write(wire.build_response(302, "Found", headers=[("Location", req.target.decode("latin-1") + "?again")], body=b""))
             else:
                 sc.write(wire.build_response(503, body=b"busy"))
             return
-        rid = req.target.decode("latin-1").strip("/")
+        rid = req.target.decode("latin-1").split("?")[0].strip("/")
         sc.write(wire.build_response(200, body=("id=" + rid + ";" + "x" * 20).encode()))
 
 
@@ -420,6 +424,12 @@ def configs(ctx: Ctx) -> list[dict[str, typing.Any]]:
                             if workers == 3 and reqs == 2 and ctx.quick:
                                 continue
                             out.append({"workers": workers, "reqs": reqs, "maxsize": maxsize, "block": block, "closer": closer, "fail_first": fail, "fail_kind": "reset" if (workers + reqs + maxsize) % 2 else "503", "preload": (workers + maxsize + fail) % 3 != 0})
+    # a body-less retry status / redirect as the first answer(s): the follow-up attempt needs the slot the first one used
+    for workers in (2,):
+        for maxsize in (1, 2):
+            for kind in ("503-empty", "302-empty"):
+                for preload in (True, False):
+                    out.append({"workers": workers, "reqs": 1, "maxsize": maxsize, "block": True, "closer": False, "fail_first": maxsize, "fail_kind": kind, "preload": preload})
     return out
 
 
